@@ -4,7 +4,7 @@
    An epoch is its number and a block lookup ([ep_block], provided by the indexes: C01 + C03). *)
 From Coq Require Import List Arith NArith Sorting.Sorted Sorting.Permutation.
 Import ListNotations.
-Require Import YF.FS YF.FSCheck YF.C02_Rpc.
+Require Import YF.FS YF.FSCheck YF.C02_Rpc YF.C14_Hash YF.C14_Frames YF.C14_Term YF.C14_Layout YF.C02_Tx.
 
 (* getBlock: for every set of loaded epochs [me], every archived block [b] of a loaded epoch [e] and EVERY
    completion order of the concurrent entry/transaction fetches ([order] lists the completed (entry,tx)
@@ -54,6 +54,28 @@ Theorem C02_unarchived_signature_not_found : forall has limit cs s r,
   (forall e, ~ In (e, true) has) -> map_find r = NotFoundR.
 Proof. exact search_not_found. Qed.
 
+(* getTransaction / getBlock payloads: the transaction bytes and the metadata bytes of the reply are byte-identical
+   to what was archived — for ANY number of frames of either payload, ANY fan-out of the next links, ANY
+   injective CID assignment and ANY store that holds (at least) the continuation frames; zstd enters through its
+   contract decompress (compress x) = Some x; sort.Slice through "returns a sorted permutation". This composes C14's
+   reassembly theorem with the decompression step of storage.go. *)
+Theorem C02_transaction_payloads_byte_identical :
+  forall (compress : list N -> list N) (decompress : list N -> option (list N)),
+  (forall x, decompress (compress x) = Some x) ->
+  forall (srt : list frame -> list frame), (forall l, Permutation (srt l) l) -> (forall l, fsorted (srt l)) ->
+  forall (cid_d cid_m : nat -> cid) (txbytes meta : list N) (nd nm kd km : nat) (store : list (cid * frame)),
+  1 <= kd -> 1 <= km -> 1 <= nd -> 1 <= nm ->
+  (forall i j, i < nd -> j < nd -> cid_d i = cid_d j -> i = j) ->
+  (forall i j, i < nm -> j < nm -> cid_m i = cid_m j -> i = j) ->
+  let cd := chunk_even nd txbytes in
+  let cm := chunk_even nm (compress meta) in
+  let hd := Some (crc64 txbytes) in
+  let hm := Some (crc64 (compress meta)) in
+  (forall i, 1 <= i < nd -> lookup store (cid_d i) = Some (wframe cid_d cd kd hd i)) ->
+  (forall i, 1 <= i < nm -> lookup store (cid_m i) = Some (wframe cid_m cm km hm i)) ->
+  get_tx_payloads decompress srt store (wframe cid_d cd kd hd 0) (wframe cid_m cm km hm 0) = TxOk txbytes meta.
+Proof. exact tx_payloads_byte_identical. Qed.
+
 (* non-vacuity: a block with two entries whose transactions complete in reverse order *)
 Example C02_nonvacuous :
   map (fun t => (t_pos t, t_id t))
@@ -67,3 +89,4 @@ Print Assumptions C02_transaction_list_unique.
 Print Assumptions C02_absent_slot.
 Print Assumptions C02_signature_routed_to_its_epoch.
 Print Assumptions C02_unarchived_signature_not_found.
+Print Assumptions C02_transaction_payloads_byte_identical.
